@@ -279,8 +279,45 @@ for (tw, tsg, tname) in ((8, False, 'u8'), (64, True, 'i64')):
                                      lambda rep: (rep.get('values') == cvals and rep.get('runs') == cruns and rep.get('equal') is True, [cvals, cruns]))
                         if n == N_RLE and k == 1:
                             ck.sample({'obligation': 'rle_roundtrip', 'ty': tname, 'vals': cv, 'values': cvals, 'runs': cruns})
+# long inputs: a constant background with up to two outliers at any positions (block-wise / strided encoders can only
+# go wrong beyond one block; full-width lists of that length are out of reach, this family is linear in the length)
+RLE_LONG = (17, 33) if T == 'quick' else (5, 9, 17, 33, 40)
+ck.declare('rle_roundtrip_long', f'i64 lists of length {list(RLE_LONG)}: one arbitrary background value with arbitrary values at one or two positions (every position pair in thorough, '
+           'every position plus every pair 16 apart in quick)', 'rle_decode(rle_encode(x)) == x and sum(runs) == len')
+ck.bounds['long rle lists'] = f'lengths {list(RLE_LONG)}, background value and outliers full-width i64'
+for n in RLE_LONG:
+    singles = [(p,) for p in range(n)]
+    pairs = [(p, q) for p in range(n) for q in range(p + 1, n)] if T != 'quick' else [(p, p + d) for p in range(n) for d in (1, 15, 16, 17) if p + d < n]
+    for pos in singles + pairs:
+        bg = z3.BitVec('bg', 64)
+        outs = {p: z3.BitVec(f'o{p}', 64) for p in pos}
+        vals = [Int(outs.get(i, bg), True) for i in range(n)]
+        res = run_fn('rle_encode', [ref(Seq('i64', list(vals)))])
+        ck.note_path_problem(res, f'rle_encode long n={n} pos={pos}')
+        for r in res:
+            wit = lambda m, vals=vals: {'ty': 'i64', 'vals': [mval(m, v.v, True) for v in vals]}
+            if r.status == 'panic':
+                ck.require(ex, 'rle_roundtrip_long', r.pc, None, z3.BoolVal(False), wit, lambda m, w: 'rle')
+                continue
+            if r.status != 'return':
+                continue
+            enc = r.retval
+            runs = enc.fields[1].elems
+            total = sum([z3.ZeroExt(32, x.v) for x in runs], z3.BitVecVal(0, 64)) == n
+            res2 = run_fn('rle_decode', [ref(enc)], r.st)
+            ck.note_path_problem(res2, f'rle_decode long n={n}')
+            for r2 in res2:
+                if r2.status == 'panic':
+                    ck.require(ex, 'rle_roundtrip_long', r2.pc, None, z3.BoolVal(False), wit, lambda m, w: 'rle')
+                    continue
+                if r2.status != 'return':
+                    continue
+                out = r2.retval.elems
+                concl = z3.BoolVal(False) if len(out) != n else z3.And([a.v == b.v for a, b in zip(out, vals)] + [total])
+                ck.require(ex, 'rle_roundtrip_long', r2.pc, None, concl, wit, lambda m, w: 'rle')
+
 for v in ck.violations:
-    if v['obligation'] == 'rle_roundtrip':
+    if v['obligation'] in ('rle_roundtrip', 'rle_roundtrip_long'):
         rep = Replay.call({'op': 'rle_roundtrip_' + v['witness']['ty'], 'vals': v['witness']['vals']})
         v['replayed'] = rep.get('equal') is False or bool(rep.get('panic'))
         v['native'] = rep
